@@ -110,6 +110,22 @@ func init() {
 					}
 				}
 			}
+			if tier != "selftest" {
+				for _, b := range bufs {
+					for _, hm := range []string{"bad-after", "none-exit"} {
+						for _, bulk := range []string{"3", "40", "300"} {
+							for v := 0; v < 3; v++ {
+								sp0 := sp("C10", fmt.Sprintf("failed-start/b%s/%s/n%s/%d", b, hm, bulk, v), seed+uint64(v)*7919, P("buf", b, "hs", hm, "bulk", bulk))
+								if v > 0 {
+									sp0.Faults = "pipe.chunk,pipe.smallbuf"
+									sp0.HotPermille, sp0.DelayClass = 100, "tiny"
+								}
+								out = append(out, sp0)
+							}
+						}
+					}
+				}
+			}
 			n := 800
 			if tier == "thorough" {
 				n = 200000
@@ -162,6 +178,12 @@ func runC10(r *h.Run) {
 		if r.Spec.P("ctx", "") != "last-no-newline" {
 			lines = append(lines, c10Gen(1, 2, effBuf, 3)) // a later line must still be processed
 		}
+	} else if bulk := r.Spec.PI("bulk", 0); bulk > 0 {
+		// a long trace: the plugin explains at length why it gives up
+		lines = append(lines, c10Gen(6, 0, effBuf, 0))
+		for i := 1; i < bulk; i++ {
+			lines = append(lines, c10Gen(0, 0, effBuf, i))
+		}
 	} else if r.Spec.P("random", "") == "1" {
 		n := 1 + w.Range("lines/n", 12)
 		for i := 0; i < n; i++ {
@@ -205,9 +227,23 @@ func runC10(r *h.Run) {
 	}
 	chunk := []int{0, 1, 7, 100, 4096}[w.Range("chunk", 5)]
 	sc := &h.Script{Listen: "unix", Steps: []h.ScriptStep{h.Out("1|1|unix|{ADDR}|netrpc|\n")}}
+	// hs: the start FAILS after the plugin wrote its stderr (what it wrote is
+	// usually the explanation): a refused handshake line, or exit without one
+	hsMode := r.Spec.P("hs", "")
+	if hsMode != "" {
+		sc.Steps = nil
+		stdoutBytes = nil
+		ctx += " start=" + hsMode
+	}
 	if len(stderrBytes) > 0 {
 		st := h.ScriptStep{Stream: "err", Data: base64.StdEncoding.EncodeToString(stderrBytes), Chunk: chunk}
 		sc.Steps = append(sc.Steps, st)
+	}
+	switch hsMode {
+	case "bad-after":
+		sc.Steps = append(sc.Steps, h.Out("9|9|unix|{ADDR}|netrpc|\n"))
+	case "none-exit":
+		sc.End = "exit:2"
 	}
 	if len(stdoutBytes) > 0 {
 		sc.Steps = append(sc.Steps, h.ScriptStep{Stream: "out", Data: base64.StdEncoding.EncodeToString(stdoutBytes), Chunk: []int{0, 1000, 65536}[w.Range("ochunk", 3)]})
@@ -227,8 +263,12 @@ func runC10(r *h.Run) {
 	if o.Hung {
 		return
 	}
-	if o.Err != nil {
+	if o.Err != nil && hsMode == "" {
 		r.Violate("setup", "start failed", o.Err.Error())
+		return
+	}
+	if o.Err == nil && hsMode != "" {
+		r.Violate("setup", "start succeeded although the plugin refuses the handshake", "")
 		return
 	}
 	// the writer must not be blocked for ever
